@@ -90,7 +90,8 @@ func c20Literal(t *rapid.T) string {
 	var sb strings.Builder
 	sb.WriteString(q)
 	for i := 0; i < n; i++ {
-		sb.WriteString(rapid.SampledFrom([]string{";", ";", " ", "a", "b;c", other, other + ";", "  ", "x y", "é", "日本", ";;", "SELECT", ",", "(", "--", "/*"}).Draw(t, "part"))
+		// "\r" is Enter pressed inside the literal: the console turns it into a space
+		sb.WriteString(rapid.SampledFrom([]string{";", ";", " ", "a", "b;c", other, other + ";", "  ", "x y", "é", "日本", ";;", "SELECT", ",", "(", "--", "/*", "\r", ";\r", "\r;"}).Draw(t, "part"))
 	}
 	sb.WriteString(q)
 	return sb.String()
@@ -164,7 +165,7 @@ func c20Input(c c20Case) (string, []string) {
 		var st strings.Builder
 		for j, tok := range toks {
 			sb.WriteString(tok)
-			st.WriteString(tok)
+			st.WriteString(strings.ReplaceAll(tok, "\r", " "))
 			br := ""
 			if i < len(c.Breaks) && j < len(c.Breaks[i]) {
 				br = c.Breaks[i][j]
